@@ -749,6 +749,11 @@ class Builder:
         if k == "wild":
             return tk(fr)
         if k == "bind":
+            # a bound integer expression is folded once (chains like `let b = a + 1; let c = b + 1; ..` stay linear)
+            if isinstance(v, dict) and v.get("k") in ("bin", "cast", "mcall", "un"):
+                nv_ = self.int_value(v)
+                if nv_ is not None:
+                    v = {"k": "lit", "ty": "int", "v": str(abs(nv_)), "neg": nv_ < 0}
             f1 = fr.bind(p["id"], v)
             if p.get("sub"):
                 return self.match_pat(p["sub"], v, f1, tk, fk)
